@@ -102,7 +102,7 @@ def make_motif(a, fs, rng):
     d, s = rng.choice(files)
     data = fs.entries[d][s][1]
     steps = []
-    first = rng.choice(["copy-same-name", "replace-same-size", "delete", "move-disk", "empty-disk"])
+    first = rng.choice(["copy-same-name", "replace-same-size", "delete", "delete", "move-disk", "empty-disk"])
     if first == "empty-disk":
         # a whole disk loses everything while its deletions are still pending across a partial / killed sync; half of the
         # time the disk held one big file reaching further into the parity than every other disk
@@ -150,8 +150,14 @@ def make_motif(a, fs, rng):
         return []
     sv = rng.choice([["-S", str(rng.randint(0, 3)), "-B", str(rng.randint(1, 4))], ["--test-kill-after-sync"], ["--test-kill-after-sync"],
                      ["-h", "-S", str(rng.randint(0, 3)), "-B", str(rng.randint(1, 4))], ["-S", "0", "-B", "1"]])
+    if first == "delete" and rng.random() < 0.5:
+        # the deletion reaches the parity but not the saved state (killed after the parity update) ...
+        sv = ["--test-kill-after-sync"]
     steps.append(("cmd", "sync", ["-E", "-Z"] + sv))
     second = rng.choice(["touch", "same-data-rewrite", "recreate-same-data", "recreate-same-data", "recreate-other-name", "none"])
+    if first == "delete" and sv == ["--test-kill-after-sync"] and rng.random() < 0.7:
+        # ... and the same bytes come back at the freed positions
+        second = "recreate-same-data"
     td, ts = tgt
     if second == "touch":
         steps.append(("fs", lambda: fs.set_mtime(td, ts) if ts in fs.entries[td] else None, "touch %r" % ts))
